@@ -13,7 +13,7 @@ t2=$(grep -m1 -E "go test" "$demo" | grep -oE "\./[A-Za-z0-9_/.-]+" | tail -1 | 
 if [ -n "$t2" ] && [ "$t2" != "..." ]; then target="$t2"; fi
 if [ -f "$seed/meta.json" ]; then t=$(jq -r '.demo_dir // empty' "$seed/meta.json"); [ -n "$t" ] && target="$t"; fi
 runpat=$(grep -m1 -oE "\-run '?[A-Za-z0-9_|^\$()]+'?" "$demo" | awk '{print $2}' | tr -d "'")
-tags=$(grep -m1 -oE "\-tags[= ]'?[a-z, ]+'?" "$demo" | sed -E "s/-tags[= ]//; s/'//g")
+tags=$(grep -m1 -E "go test" "$demo" | grep -oE "\-tags[= ]'?[a-z,]+'?" | head -1 | sed -E "s/-tags[= ]//; s/'//g")
 [ -n "$target" ] || { echo "CONFIRM-ERROR cannot find target dir in $demo"; exit 2; }
 wt=$(mktemp -d /tmp/seedconfirm.XXXXXX)
 git -C /repo worktree add -q --detach "$wt" HEAD || exit 2
